@@ -27,7 +27,7 @@ theorem doesNotMapBack_forced (a d : Str)
           d ++ ',' :: " but this does not map back to the address.".toList := by
         simpa using hp
       exact lacks_spec d "maps to " hl2 0 (prefix_of_prefix_append_notMem _ _ _ _ (by decide) hp')
-    · exact no_occ_append _ d _ ',' _ rfl (by decide)
+    · exact no_occ_appendD _ d _ ',' _ rfl (by decide)
         (lacks_spec d " maps to " hl1)
         (lacks_spec _ " maps to " (by decide))
 
